@@ -137,6 +137,12 @@ impl Family for Fam {
                     Err(_) => vec![ERR],
                 }
             }
+            18 => {
+                // probe: a clone inserts the item and is asked for it
+                let mut c = self.get(slot).clone();
+                c.insert(a[1] as i64);
+                vec![c.contains(&(a[1] as i64)) as i128]
+            }
             _ => vec![PANIC],
         }
     }
